@@ -125,10 +125,10 @@ func CSVConsumer(opts ...CSVOpt) Consumer {
 					return err
 				}
 
-				v.Grow(len(csvWriter.records))
-				v.SetCap(len(csvWriter.records)) // in case Grow was unnessary, trim down the capacity
-				v.SetLen(len(csvWriter.records))
-				reflect.Copy(v, reflect.ValueOf(csvWriter.records))
+				// replace the destination by exactly the records read, whatever it held before
+				records := reflect.MakeSlice(t, len(csvWriter.records), len(csvWriter.records))
+				reflect.Copy(records, reflect.ValueOf(csvWriter.records))
+				v.Set(records)
 
 				return nil
 
